@@ -43,6 +43,7 @@ func zzC07_LinkStep() {
 	zzReach("link-accepted")
 	zzAssert(zzEdgesWellFormed(g2), "C07/link: every edge joins two live items of the same kind, no self-edge")
 	zzAssert(!zzHasCycle3(g2), "C07/link: no cycle")
+	zzAssert(!zzHasCycle3(g2), "C15/step: sequence never closes a dependency cycle, whatever the states of the items")
 	for x := range g.Tasks {
 		for y := range g.Tasks {
 			if x == from && y == to {
@@ -76,6 +77,7 @@ func zzC07_Chain() {
 	// whatever was written (all edges, or - known C10 finding - a prefix), the graph stays well-formed
 	zzAssert(zzEdgesWellFormed(g2), "C07/chain: every edge joins two live items of the same kind, no self-edge")
 	zzAssert(!zzHasCycle3(g2), "C07/chain: no cycle")
+	zzAssert(!zzHasCycle3(g2), "C15/step: a sequence chain never closes a dependency cycle")
 }
 
 // deps/rdeps mirroring after a step, on a smaller store (the derived slices are rebuilt by
